@@ -73,6 +73,7 @@ var srcTargets = []srcTarget{
 	{Group: "ValidateClaims", Recv: "Import", Name: "GetTo", Only: "V2"},
 	{Group: "ValidateClaims", Recv: "Import", Name: "Validate", Only: "V2"},
 	{Group: "ValidateClaims", Recv: "Imports", Name: "Validate", Only: "V2"},
+	{Group: "ValidateClaims", Recv: "OperatorLimits", Name: "Validate", Only: "V2"},
 	{Group: "ValidateClaims", Recv: "AuthorizationRequestClaims", Name: "Validate", Only: "V2"},
 	{Group: "ValidateClaims", Recv: "AuthorizationResponseClaims", Name: "Validate", Only: "V2"},
 	{Group: "ValidateClaims", Recv: "GenericClaims", Name: "Validate", Only: "V2"},
@@ -110,6 +111,15 @@ var srcTargets = []srcTarget{
 	{Group: "Encode", Recv: "AuthorizationRequestClaims", Name: "Encode", Only: "V2"},
 	{Group: "Encode", Recv: "AuthorizationResponseClaims", Name: "Encode", Only: "V2"},
 	{Group: "Encode", Recv: "GenericClaims", Name: "Encode", Only: "V2"},
+	{Group: "Results", Name: "CreateValidationResults"},
+	{Group: "Results", Recv: "ValidationResults", Name: "Add"},
+	{Group: "Results", Recv: "ValidationResults", Name: "AddError"},
+	{Group: "Results", Recv: "ValidationResults", Name: "AddTimeCheck"},
+	{Group: "Results", Recv: "ValidationResults", Name: "AddWarning"},
+	{Group: "Results", Recv: "ValidationResults", Name: "IsBlocking"},
+	{Group: "Results", Recv: "ValidationResults", Name: "IsEmpty"},
+	{Group: "Results", Recv: "ValidationResults", Name: "Errors"},
+	{Group: "Results", Recv: "ValidationResults", Name: "Warnings"},
 	{Group: "DidSign", Recv: "StringList", Name: "Contains", Only: "V2"},
 	{Group: "DidSign", Recv: "OperatorClaims", Name: "DidSign", Only: "V2"},
 	{Group: "DidSign", Recv: "AccountClaims", Name: "DidSign", Only: "V2"},
@@ -206,6 +216,12 @@ func (t *tr) coqType(n ast.Node, ty types.Type) string {
 	}
 	if isVR(ty) {
 		return "(list go_issue)"
+	}
+	if implResults && isResultsType(ty) {
+		return "(list (string * bool * bool))"
+	}
+	if implResults && isIssuePtr(ty) {
+		return "(string * bool * bool)"
 	}
 	if named, ok := ty.(*types.Named); ok && named.Obj().Name() == "go_log_t" {
 		return "(list go_event)"
@@ -380,6 +396,27 @@ func (t *tr) expr(e ast.Expr) string {
 		}
 		t.fail(e, "identifier %s is not a local variable, parameter or constant", x.Name)
 	case *ast.SelectorExpr:
+		if id, ok := x.X.(*ast.Ident); ok && implResults && t.recv != nil && t.info.Uses[id] == t.recv && x.Sel.Name == "Issues" {
+			return t.names[t.recv] // the results are their list of issues
+		}
+		if id, ok := x.X.(*ast.Ident); ok && t.names[t.info.Uses[id]] != "" {
+			// a field of a local variable holding a plain struct (a tuple), also behind a pointer in the results' own code
+			ty := t.info.TypeOf(id)
+			if implResults && isIssuePtr(ty) {
+				ty = ty.(*types.Pointer).Elem()
+			}
+			if st, ok := ty.Underlying().(*types.Struct); ok && isPlainStruct(ty) {
+				var pat []string
+				pick := ""
+				for i := 0; i < st.NumFields(); i++ {
+					pat = append(pat, fmt.Sprintf("go_f%d", i))
+					if st.Field(i).Name() == x.Sel.Name {
+						pick = pat[i]
+					}
+				}
+				return "(let '(" + strings.Join(pat, ", ") + ") := " + t.names[t.info.Uses[id]] + " in " + pick + ")"
+			}
+		}
 		if name, ok := t.absPath(x); ok {
 			return t.observe(name, t.coqType(x, t.info.TypeOf(x)))
 		}
@@ -416,6 +453,10 @@ func (t *tr) expr(e ast.Expr) string {
 		if isAbstractType(t.info.TypeOf(x)) && len(x.Elts) == 0 {
 			return "go_nil" // the zero value of an opaque struct
 		}
+		if _, isSlice := t.info.TypeOf(x).Underlying().(*types.Slice); isSlice && len(x.Elts) == 0 {
+			t.coqType(x, t.info.TypeOf(x))
+			return "[]" // an empty slice literal
+		}
 		t.fail(e, "composite literal of %s", t.info.TypeOf(x))
 	case *ast.UnaryExpr:
 		switch x.Op {
@@ -426,6 +467,22 @@ func (t *tr) expr(e ast.Expr) string {
 		case token.AND:
 			if id, ok := x.X.(*ast.Ident); ok && t.names[t.info.Uses[id]] != "" && isAbstractType(t.info.Uses[id].Type()) {
 				return t.names[t.info.Uses[id]] // the address of an opaque local is that value
+			}
+			if lit, ok := x.X.(*ast.CompositeLit); ok && implResults && isResultsType(t.info.TypeOf(lit)) {
+				// &ValidationResults{Issues: l}: the results are their list
+				for _, el := range lit.Elts {
+					if kv, ok := el.(*ast.KeyValueExpr); ok {
+						if id, ok := kv.Key.(*ast.Ident); ok && id.Name == "Issues" {
+							return t.expr(kv.Value)
+						}
+					} else {
+						return t.expr(el)
+					}
+				}
+				return "[]"
+			}
+			if lit, ok := x.X.(*ast.CompositeLit); ok && implResults && isPlainStruct(t.info.TypeOf(lit)) {
+				return t.expr(lit) // (an issue behind a pointer is the issue: nothing in this package writes through it)
 			}
 		}
 		t.fail(e, "unary operator %s", x.Op)
@@ -461,6 +518,27 @@ func (t *tr) expr(e ast.Expr) string {
 			}
 		}
 		if x.Op == token.EQL || x.Op == token.NEQ {
+			// p.F == T{} / p.F != T{} for a struct-valued field of an abstract value: whether it is the zero value is an observation
+			for _, pair := range [][2]ast.Expr{{x.X, x.Y}, {x.Y, x.X}} {
+				lit, isLit := pair[1].(*ast.ParenExpr)
+				var cl *ast.CompositeLit
+				if isLit {
+					cl, _ = lit.X.(*ast.CompositeLit)
+				} else {
+					cl, _ = pair[1].(*ast.CompositeLit)
+				}
+				if cl != nil && len(cl.Elts) == 0 {
+					if pth, ok := t.absPath(pair[0]); ok && !strings.HasPrefix(pth, "\x00") {
+						if _, isStruct := t.info.TypeOf(pair[0]).Underlying().(*types.Struct); isStruct {
+							r := t.observe(pth+"_iszero", "bool")
+							if x.Op == token.NEQ {
+								return "(negb " + r + ")"
+							}
+							return r
+						}
+					}
+				}
+			}
 			pa, oka := t.absPath(x.X)
 			pb, okb := t.absPath(x.Y)
 			isRef := func(e ast.Expr) bool {
@@ -800,6 +878,19 @@ func (t *tr) mapExpr(e ast.Expr) string {
 	return t.expr(e)
 }
 
+// mapTranslatable: a map whose values are translated as data (integers, strings, the empty struct)
+func (t *tr) mapTranslatable(e ast.Expr) bool {
+	m, ok := t.info.TypeOf(e).Underlying().(*types.Map)
+	if !ok {
+		return false
+	}
+	if isSetType(t.info.TypeOf(e)) {
+		return true
+	}
+	_, basic := m.Elem().Underlying().(*types.Basic)
+	return basic
+}
+
 // mapOps: the get / set vocabulary for a map: integers have their own (go_mget / go_mset); any other value type uses
 // the polymorphic pair, whose get takes the zero value to answer for a missing key
 func (t *tr) mapOps(e ast.Expr) (get, set, vty string) {
@@ -840,6 +931,9 @@ func (t *tr) call(x *ast.CallExpr) string {
 		case *types.Builtin:
 			switch o.Name() {
 			case "len":
+				if pth, ok := t.absPath(x.Args[0]); ok && !strings.HasPrefix(pth, "\x00") && t.isMap(x.Args[0]) && !t.mapTranslatable(x.Args[0]) {
+					return t.observe(pth+"_len", "Z") // a map of abstract values: how many entries it has is an observation
+				}
 				if t.isStr(x.Args[0]) || t.coqType(x.Args[0], t.info.TypeOf(x.Args[0])) == "string" {
 					return "(go_slen " + t.expr(x.Args[0]) + ")"
 				}
@@ -931,6 +1025,12 @@ func (t *tr) call(x *ast.CallExpr) string {
 					}
 					t.fail(x, "time.Unix with nanoseconds")
 				case "fmt.Sprintf":
+					if x.Ellipsis.IsValid() && len(a) == 2 {
+						if prefix, ok := t.absPath(a[1]); ok {
+							// the text depends on arguments that are not translated: an unknown function of the format
+							return "(" + t.observe("go_fmt_Sprintf__"+prefix, "(string -> string)") + " " + t.expr(a[0]) + ")"
+						}
+					}
 					// a format of %s verbs and plain text over strings: concatenation
 					if tv := t.info.Types[a[0]]; tv.Value != nil && tv.Value.Kind() == constant.String {
 						parts := strings.Split(constant.StringVal(tv.Value), "%s")
@@ -1076,6 +1176,10 @@ func (t *tr) assigned(n ast.Node) []*types.Var {
 			e = y.X
 		case *ast.IndexExpr: // m[k] = ...
 			e = y.X
+		case *ast.SelectorExpr: // v.Issues = ... in the results' own code
+			if implResults && y.Sel.Name == "Issues" {
+				e = y.X
+			}
 		}
 		id, ok := e.(*ast.Ident)
 		if !ok || id.Name == "_" {
@@ -1336,6 +1440,15 @@ func (t *tr) block0(stmts []ast.Stmt, c sctx, ind string) string {
 		}
 		return out + t.block(rest, c, ind)
 	case *ast.AssignStmt:
+		// v.Issues = e in the results' own code: the receiver becomes e
+		if implResults && len(x.Lhs) == 1 && len(x.Rhs) == 1 && x.Tok == token.ASSIGN {
+			if sel, ok := x.Lhs[0].(*ast.SelectorExpr); ok && sel.Sel.Name == "Issues" {
+				if id, ok := sel.X.(*ast.Ident); ok && t.recv != nil && t.info.Uses[id] == t.recv {
+					t.mut = true
+					return "let " + t.names[t.recv] + " := " + t.expr(x.Rhs[0]) + " in" + nl + t.block(rest, c, ind)
+				}
+			}
+		}
 		// x.F = e for a local variable x holding a plain struct (a tuple): the tuple with that field replaced
 		if len(x.Lhs) == 1 && len(x.Rhs) == 1 && x.Tok == token.ASSIGN {
 			if sel, ok := x.Lhs[0].(*ast.SelectorExpr); ok {
@@ -1400,6 +1513,15 @@ func (t *tr) block0(stmts []ast.Stmt, c sctx, ind string) string {
 					}
 					okName := t.lhsName(x.Lhs[1], x.Tok == token.DEFINE)
 					return bindVal + "let " + okName + " := " + t.observe(prefix+"_is_"+tn, "bool") + " in" + nl + t.block(rest, c, ind)
+				}
+			}
+			// _, ok := p.M[k] for a map of abstract values held by an abstract value: whether the key is there is an observation
+			if ie, ok := x.Rhs[0].(*ast.IndexExpr); ok && t.isMap(ie.X) && !t.mapTranslatable(ie.X) && (x.Tok == token.DEFINE || x.Tok == token.ASSIGN) {
+				if pth, isAbs := t.absPath(ie.X); isAbs && !strings.HasPrefix(pth, "\x00") {
+					if id, isId := x.Lhs[0].(*ast.Ident); isId && id.Name == "_" {
+						b := t.lhsName(x.Lhs[1], x.Tok == token.DEFINE)
+						return "let " + b + " := (" + t.observe(pth+"_has", "(string -> bool)") + " " + t.expr(ie.Index) + ") in" + nl + t.block(rest, c, ind)
+					}
 				}
 			}
 			// _, ok := s[k] for a set
@@ -1948,11 +2070,13 @@ func translateFunc(pkg *packages.Package, fd *ast.FuncDecl, coqName string, know
 	}()
 	var params []string
 	recvName := ""
+	implResults = recvTypeName(fd) == "ValidationResults" || (fd.Recv == nil && fd.Name.Name == "CreateValidationResults")
+	defer func() { implResults = false }()
 	if fd.Recv != nil && len(fd.Recv.List) == 1 && len(fd.Recv.List[0].Names) == 1 {
 		id := fd.Recv.List[0].Names[0]
 		rv := t.info.Defs[id].(*types.Var)
 		t.recv = rv
-		if _, isStruct := derefType(rv.Type()).Underlying().(*types.Struct); !isStruct {
+		if _, isStruct := derefType(rv.Type()).Underlying().(*types.Struct); !isStruct || implResults {
 			// a string, a map, or a slice (possibly behind a pointer): the receiver is a value parameter
 			recvName = t.bind(rv)
 			params = append(params, "("+recvName+" : "+t.coqType(fd, derefType(rv.Type()))+")")
@@ -1971,6 +2095,14 @@ func translateFunc(pkg *packages.Package, fd *ast.FuncDecl, coqName string, know
 				isStruct = false // a time.Time is its Unix seconds
 			}
 			if isVR(o.Type()) {
+				isStruct = false
+			}
+			if sl, ok := o.Type().(*types.Slice); ok {
+				if it, ok := sl.Elem().Underlying().(*types.Interface); ok && it.NumMethods() == 0 {
+					isIface = true // args ...interface{}: known only through what is made of them (a formatted text)
+				}
+			}
+			if implResults && isIssuePtr(o.Type()) {
 				isStruct = false
 			}
 			if (isStruct && !isPlainStruct(o.Type())) || isIface {
@@ -2163,12 +2295,28 @@ func recvIsStruct(o types.Object) bool {
 }
 
 // isVR: *ValidationResults (of either library)
-func isVR(ty types.Type) bool {
+// implResults: set while the methods of ValidationResults themselves are translated - there the results are not the
+// opaque "list of issues so far" but the struct that they are: one field, a list of issues (an issue, also behind a
+// pointer, is the tuple of its text and two flags)
+var implResults bool
+
+func isResultsType(ty types.Type) bool {
 	if p, ok := ty.(*types.Pointer); ok {
 		ty = p.Elem()
 	}
 	n, ok := ty.(*types.Named)
 	return ok && n.Obj().Name() == "ValidationResults"
+}
+func isIssuePtr(ty types.Type) bool {
+	p, ok := ty.(*types.Pointer)
+	if !ok {
+		return false
+	}
+	n, ok := p.Elem().(*types.Named)
+	return ok && n.Obj().Name() == "ValidationIssue"
+}
+func isVR(ty types.Type) bool {
+	return !implResults && isResultsType(ty)
 }
 
 // isPlainStruct: a struct of plain fields, translated as a tuple (not an abstract value)
